@@ -53,12 +53,12 @@ declare_class('saml2_tophat.sigver:SecurityContext', fields={
     'sec_backend': 'Any',
     'key_file': 'Any', 'key_type': 'Any',
     'cert_file': 'Opt(Str)', 'cert_type': 'Str',
-    'enc_key_files': 'Opt(List(Any))', 'enc_key_type': 'Any',
+    'enc_key_files': 'Opt(List(Str))', 'enc_key_type': 'Any',
     'encryption_keypairs': 'Any', 'enc_cert_type': 'Any',
     'my_cert': 'Any',
     'cert_handler': "Inst('saml2_tophat.sigver:CertHandler')",
     'metadata': "Opt(Inst('saml2_tophat.mdstore:MetadataStore'))",
-    'only_use_keys_in_metadata': 'Any',
+    'only_use_keys_in_metadata': 'Opt(Bool)',
     'template': 'Any', 'encrypt_key_type': 'Any',
     '_xmlsec_delete_tmpfiles': 'Any',
 })
